@@ -52,7 +52,7 @@ func vShards(d *vCtx, n int, child func(i, n int) error) error {
 	for i := 0; i < n; i++ {
 		if errs[i] != nil {
 			crashed++
-			_ = os.WriteFile(filepath.Join(d.out, fmt.Sprintf("shard-%02d.crash.txt", i)), []byte(outs[i]), 0644)
+			_ = os.WriteFile(filepath.Join(d.out, fmt.Sprintf("shard-%02d.crash.txt", i)), []byte(errs[i].Error()+"\n"+outs[i]), 0644)
 			continue
 		}
 		b, err := os.ReadFile(filepath.Join(d.out, fmt.Sprintf("shard-%02d", i), "summary.json"))
